@@ -150,14 +150,15 @@ def execute(cmd, arrays, params, fuzzy_inputs=None, reverse_keywords=False):
         return ("err", exc)
 
 
-def run_via_command(cmd, arrays, params, fuzzy_inputs=None):
-    """like execute() but through Command.run (validate_params + error wrapping)."""
+def run_via_command(cmd, arrays, params, fuzzy_inputs=None, repeat_first=False):
+    """like execute() but through Command.run (validate_params + error wrapping).  repeat_first: the first producer is LISTED TWICE (the same
+    command object at two places of the input list)."""
     from mpilot.arguments import Argument
 
     if fuzzy_inputs is None:
         fuzzy_inputs = SIG.input_fuzz(cmd) == "fz"
     prods = [producer(PRODUCER_NAMES[i % len(PRODUCER_NAMES)] + ("" if i < len(PRODUCER_NAMES) else str(i)), a, fuzzy_inputs) for i, a in enumerate(arrays)]
-    kw = kwargs_for(cmd, prods, params)
+    kw = kwargs_for(cmd, ([prods[0]] + prods) if repeat_first else prods, params)
     inst = cls_of(cmd)("res", [Argument(k, v) for k, v in kw.items()])
     try:
         with numpy.errstate(all="ignore"):
